@@ -242,7 +242,7 @@ impl Broker {
     /// Produce the packet for `e`. `variant` picks among the legal forms (0 = default).
     /// For CONNACK, `variant` is interpreted by `connack`.
     pub fn emit(&mut self, e: &Emit, variant: u8) -> SPacket {
-        let fail = variant == 1;
+        let fail = variant == 1 || variant >= 100;
         match e {
             Emit::Script => {
                 let m = self.cfg.script[self.script_next].clone();
@@ -269,6 +269,7 @@ impl Broker {
                         let reason = if fail {
                             match kind {
                                 AckKind::PubComp | AckKind::PubRel => 0x92,
+                                _ if variant >= 100 => self.cfg.fail_codes[(variant - 100) as usize % self.cfg.fail_codes.len()],
                                 _ => 0x80,
                             }
                         } else if variant == 2 && matches!(kind, AckKind::PubAck | AckKind::PubRec) && reason == 0 {
@@ -361,6 +362,13 @@ impl Broker {
                 _ => 0,
             },
             _ => 0,
+        }
+    }
+
+    pub fn is_puback_or_pubrec(&self, e: &Emit) -> bool {
+        match e {
+            Emit::Owed(i) => matches!(self.owed[*i], Owed::Ack { kind: AckKind::PubAck | AckKind::PubRec, reason: 0, .. }),
+            _ => false,
         }
     }
 
